@@ -161,7 +161,8 @@ def validateNextTx (n : Node) (idx : Nat) (hash : String) (bn : Nat) (ts : Nat) 
   else none
 
 /-- Apply one recorded table write; `none` = the write does not carry the expected stamp, names an unknown table,
-or panics inside the history (stale stamp). -/
+panics inside the history (stale stamp), or is a block-table row filed under a number other than its stamp
+(`BlockDatabase::set(block_number, ..)` is keyed by the number it is stamped with). -/
 def applyS (n : Node) (expect : Nat) (table : String) (stamp : Nat) (key : String) (value : Option String) : Option Node :=
   if stamp ≠ expect then none
   else
@@ -172,7 +173,7 @@ def applyS (n : Node) (expect : Nat) (table : String) (stamp : Nat) (key : Strin
       | none => ((n.t i).unset W stamp key).map (n.setT i)
     | none =>
       match BId.ofName table, value with
-      | some i, some v => some (n.setB i ((n.b i).set (hexVal key) v))
+      | some i, some v => if hexVal key = stamp then some (n.setB i ((n.b i).set (hexVal key) v)) else none
       | _, _ => none
 
 def applyEvents (n : Node) (expect : Nat) : List Ev → Option Node
@@ -253,6 +254,15 @@ def drainPlan (n : Node) (sender : String) (bn : Nat) : Nat → Nat → Nat × N
       let live := match parkedBlock v with | some pb => decide (FUTURE_BLOCKS + pb > bn) | none => false
       ((if live then 1 else 0) + e, vis + 1)
 
+/-- the pending-pool tables: the only tables `set_pending_tx` writes -/
+def poolTables : List TId := [.pending, .pendingTxid]
+
+/-- every recorded table write of the list goes to a pending-pool table -/
+def poolOnly (evs : List Ev) : Bool :=
+  evs.all (fun e => match e with
+    | .s tb _ _ _ => poolTables.any (fun i => tb == i.name)
+    | _ => true)
+
 inductive RawDecode where
   | fail
   | wrongChain
@@ -271,6 +281,7 @@ def addRawTx (n : Node) (ts : Nat) (hash0 : String) (idx : Nat) (txid : String) 
       if nonce > acct ∧ nonce < acct + FUTURE_NONCES then
         -- parked: two pending-table writes stamped with the height being built, no run, block info untouched
         if !(txRuns evs).isEmpty then (n, .reject "parked-ran")
+        else if !poolOnly evs then (n, .reject "parked-wrote")
         else match applyEvents n bn evs with
           | none => (n, .reject "stamp")
           | some n' => (n', .ok)
